@@ -9,15 +9,20 @@ from . import core
 
 
 class Ctx:
-    def __init__(self, tier, repo=None):
+    def __init__(self, tier, repo=None, suffix=""):
         self.tier = tier
         self.repo = repo or core.REPO
         self.configs_used = []
         self.extract_errors = {}
+        self.suffix = suffix  # "32": every configuration is taken from the i686 (32-bit digit) build instead
 
     def facts(self, config="all"):
+        from . import r2
+
+        config = config + self.suffix if not config.endswith(self.suffix) else config
         if config not in self.configs_used:
             self.configs_used.append(config)
+        r2.PTR_BITS[0] = 32 if config.endswith("32") else 64
         return core.load(config, self.repo)
 
     def thorough(self):
@@ -104,10 +109,23 @@ def run_property(pid, tier, seed, repo=None, write=True):
         for fn in meta["clauses"]:
             if fn in props.PORTABLE:
                 runs += [(fn, "default"), (fn, "nostd")]
+    # thorough tier: the same clauses on the 32-bit-digit variants of the code (i686 build through -Zbuild-std); rules that
+    # are about x86_64-only constructs or that compare against 64-bit instance tables are left out, with the reason
+    ctx32 = None
+    if tier == "thorough":
+        ctx32 = Ctx(tier, repo, suffix="32")
+        for fn in meta["clauses"]:
+            if not _skip32(fn):
+                runs.append((fn, "@32"))
+    n64 = None
     for fn, cfg in runs:
         try:
             if cfg is None:
                 fn(ctx, res)
+            elif cfg == "@32":
+                if n64 is None:
+                    n64 = len(res.findings)
+                fn(ctx32, res)
             else:
                 fn(ctx, res, config=cfg)
         except core.ExtractError as e:
@@ -132,6 +150,15 @@ def run_property(pid, tier, seed, repo=None, write=True):
                     line=0,
                 )
             )
+    if n64 is not None:
+        for f in res.findings[n64:]:
+            f.msg = "[32-bit digit build, i686] " + f.msg
+            f.key = f.key + "@32"
+        res.clause("thorough: %d clauses re-run on the facts of the i686 build (32-bit digits; std built from rust-src)" % sum(1 for _, c in runs if c == "@32"))
+        ctx.configs_used += [c for c in ctx32.configs_used if c not in ctx.configs_used]
+        from . import r2 as _r2
+
+        _r2.PTR_BITS[0] = 64
     known = [k for k in core.load_known() if k.get("property") == pid and k.get("status") == "known"]
     known_keys = {k["key"]: k for k in known}
     known_hits = []
@@ -149,6 +176,29 @@ def run_property(pid, tier, seed, repo=None, write=True):
     if write:
         write_evidence(pid, tier, seed, res, ctx, wall, extra=extra, known_hits=known_hits)
     return res, viol, known_hits
+
+
+SKIP32 = {
+    "check_block_loops": "x86_64 inline assembly: not compiled for i686",
+    "check_block_loop_callers": "x86_64 inline assembly: not compiled for i686",
+    "check_inventory": "instance counts of the 64-bit build (asm blocks, unsafe calls / dev-vs-release table)",
+    "check_raw_slice": "the u32 view of a u64 buffer exists only with 64-bit digits",
+    "check_raw_slice_lengths": "the u32 view of a u64 buffer exists only with 64-bit digits",
+    "check_matrix": "the ten-configuration matrix is a host build; the i686 configurations are type-checked by their extraction",
+    "check_feature_stability": "fingerprints are compared within one target",
+    "check_panic_site_table": "reviewed table of the 64-bit build",
+    "check_div_wide": "hardware div is x86_64 only",
+}
+
+
+def _skip32(fn):
+    nm = fn.__name__
+    if nm.startswith("selftest"):
+        return "fixture"
+    for k, why in SKIP32.items():
+        if nm == k or nm.startswith(k + "_"):
+            return why
+    return None
 
 
 MUTANT_PROPS = {
